@@ -178,7 +178,7 @@ pub trait FarmStaking:
 
         FarmStakingWrapper::<Self>::calculate_rewards(
             self,
-            &ManagedAddress::zero(),
+            &attributes.original_owner,
             &farm_token_amount,
             &attributes,
             &storage_cache,
